@@ -61,7 +61,7 @@ def gen_cases(ctx):
       omin = float(rng.choice([-1.0, 0.0, 0.5]))
     if b in ("max", "both"):
       omax = (omin if omin is not None else 0.0) + float(rng.choice([0.5, 1.0, 3.0]))
-    yield {"kind": "train" if i % 6 == 5 else "assign", "L": L, "dims": dims, "units": units, "terms": terms,
+    yield {"kind": "train" if i % 6 == 5 else ("v1graph" if i % 6 == 2 else "assign"), "form": "list" if rng.rand() < .25 else "tensor", "L": L, "dims": dims, "units": units, "terms": terms,
            "mono": mono, "mono_mode": mm, "omin": omin, "omax": omax, "bounds": b, "clip": bool(rng.rand() < .5),
            "spelling": str(rng.choice(["int", "str"])), "seed": int(rng.randint(2**31 - 1)),
            "exec": modes.pick(rng, (0.6, 0.2, 0.2)), "dtype": "float64" if rng.rand() < .12 else "float32"}
@@ -76,14 +76,28 @@ def _grid(case):
   return g, pts
 
 
-def _judge(ctx, prefix, case, layer, X, g, step, label):
+def _feed(tf, case, X):
+  """The documented input forms: one tensor, or a list of `dims` tensors with a trailing dimension of 1."""
+  if case.get("form") == "list":
+    return [tf.constant(X[..., d:d + 1]) for d in range(case["dims"])]
+  return tf.constant(X)
+
+
+def _judge(ctx, prefix, case, layer, X, g, step, label, fetched=None):
+  """fetched = (K, S, bias, y) when the state was read through a TF1 session; otherwise read eagerly from the layer."""
   tf = _state["tf"]
   dims, units = case["dims"], case["units"]
-  K, S, Bv = layer.kernel.numpy(), layer.scale.numpy(), layer.bias.numpy()
+  if fetched is not None:
+    K, S, Bv = fetched[:3]
+  else:
+    K, S, Bv = layer.kernel.numpy(), layer.scale.numpy(), layer.bias.numpy()
   if not (np.all(np.isfinite(K)) and np.all(np.isfinite(S)) and np.all(np.isfinite(Bv))):
     ctx.note("overflow-state-cut")
     return None
-  y = modes.call(tf, case.get("exec", "eager"), layer, tf.constant(X)).numpy().astype(np.float64)
+  if fetched is not None:
+    y = np.asarray(fetched[3], dtype=np.float64)
+  else:
+    y = modes.call(tf, case.get("exec", "eager"), layer, _feed(tf, case, X)).numpy().astype(np.float64)
   if not np.all(np.isfinite(y)) and (np.abs(K).max() > 1e15 or np.abs(S).max() > 1e15):
     ctx.note("overflow-state-cut")
     return None
@@ -124,6 +138,50 @@ def _judge(ctx, prefix, case, layer, X, g, step, label):
   return float(Y.max() - Y.min())
 
 
+def _run_v1(ctx, case, st, rng, mono_arg, X, g):
+  """TF1 graph mode, which finalize_constraints() documents: 'in graph mode returns a group op ... which has to be executed'.
+  The layer is built in its own Graph, weights are assigned and the returned op (or every variable's constraint) is run in
+  a Session; the state and the outputs are fetched through the session and judged by the same oracle."""
+  tf, tfl = st["tf"], st["tfl"]
+  v1 = tf.compat.v1
+  units, dims = case["units"], case["dims"]
+  ctx.cls("kind:v1graph", "bounds:" + case["bounds"], "mono:" + case["mono_mode"], "clip:%s" % case["clip"], "dims:%d" % dims, "units:%d" % units)
+  constrained = bool(any(case["mono"] or [])) or case["omin"] is not None or case["omax"] is not None
+  spread, keys = 0.0, []
+  graph = tf.Graph()
+  with graph.as_default():
+    layer = tfl.layers.KroneckerFactoredLattice(
+        lattice_sizes=case["L"], units=units, num_terms=case["terms"], monotonicities=mono_arg,
+        output_min=case["omin"], output_max=case["omax"], clip_inputs=case["clip"])
+    xin = v1.placeholder(tf.float32, [None] + list(X.shape[1:]))
+    yout = layer(xin)
+    kph = v1.placeholder(tf.float32, layer.kernel.shape)
+    sph = v1.placeholder(tf.float32, layer.scale.shape)
+    assign = [layer.kernel.assign(kph), layer.scale.assign(sph)]
+    fin_op = layer.finalize_constraints()
+    ck_op = layer.kernel.assign(layer.kernel.constraint(layer.kernel)) if layer.kernel.constraint is not None else None
+    cs_op = layer.scale.assign(layer.scale.constraint(layer.scale)) if layer.scale.constraint is not None else None
+    with v1.Session(graph=graph) as sess:
+      sess.run(v1.global_variables_initializer())
+      for step in range(1, int(rng.randint(2, 4)) + 1):
+        k = rng.normal(size=layer.kernel.shape).astype(np.float32) * float(rng.choice([.5, 3., 30.]))
+        sc = rng.normal(size=layer.scale.shape).astype(np.float32) * float(rng.choice([.5, 3.]))
+        sess.run(assign, {kph: k, sph: sc})
+        order = str(rng.choice(["finalize_constraints", "finalize_constraints", "kernel->scale", "scale->kernel"]))
+        if order == "finalize_constraints":
+          sess.run(fin_op)
+        else:
+          for op in ((ck_op, cs_op) if order == "kernel->scale" else (cs_op, ck_op)):
+            if op is not None:
+              sess.run(op)
+        K, S, Bv, y = sess.run([layer.kernel, layer.scale, layer.bias, yout], {xin: X})
+        ctx.cls("order:" + order)
+        r = _judge(ctx, "state", case, layer, X, g, step, "TF1 session: assign, then %s" % order, fetched=(K, S, Bv, y))
+        spread = max(spread, r or 0.0)
+        keys.append(core.arr_digest(K, S))
+  return constrained and spread > 1e-3, core.digest([{k: v for k, v in case.items()}, keys])
+
+
 def run_case(ctx, case):
   st = _ensure()
   tf, tfl, keras = st["tf"], st["tfl"], st["keras"]
@@ -142,7 +200,10 @@ def run_case(ctx, case):
   X = pts if units == 1 else np.repeat(pts[:, None, :], units, axis=1)
   X = X.astype(case.get("dtype", "float32"))
   ctx.cls("dtype:" + case.get("dtype", "float32"))
-  layer(tf.constant(X))
+  if case["kind"] == "v1graph":
+    return _run_v1(ctx, case, st, rng, mono_arg, X, g)
+  layer(_feed(tf, case, X))
+  ctx.cls("form:" + case.get("form", "tensor"))
   ctx.cls("kind:" + case["kind"], "bounds:" + case["bounds"], "mono:" + case["mono_mode"], "clip:%s" % case["clip"],
           "dims:%d" % dims, "units:%d" % units, "terms:%d" % case["terms"], "L:%d" % case["L"])
   constrained = bool(any(mono or [])) or case["omin"] is not None or case["omax"] is not None
